@@ -87,7 +87,7 @@ checks = {
 }
 not_built = {
 }
-for pending in ["C09"]:  # monitors that exist but are not yet through the silence gate
+for pending in []:  # monitors that exist but are not yet through the silence gate
     checks.pop(pending, None)
 hooks_commits = subprocess.run(["git","-C","/repo","log","--format=%H %s"],capture_output=True,text=True).stdout.splitlines()
 hook_commits = [l.split()[0] for l in hooks_commits if " verif hooks" in l]
